@@ -191,6 +191,15 @@ impl StreamingSound {
 	}
 }
 
+impl Drop for StreamingSound {
+	fn drop(&mut self) {
+		// the decoder thread only ends once it sees that the sound is stopped.
+		// a sound can be dropped without ever having been stopped (rejected by a
+		// full track, or discarded along with its track or the whole renderer)
+		self.shared.set_state(PlaybackState::Stopped);
+	}
+}
+
 impl Sound for StreamingSound {
 	fn on_start_processing(&mut self) {
 		self.update_current_frame();
